@@ -275,6 +275,16 @@ static void trace_mortonbits(rng & r, std::ofstream & out, long n, long & events
             out << json({{"e", "mortonbits"}, {"n", N}, {"impl", variant == 0 ? "morton" : "morton_portable"}, {"c", cb_}, {"idx", bits64(idx)}}).dump() << "\n";
             ++events;
         }
+        // the same coordinates held in a 32-bit coordinate type (the position still needs up to 64 bits)
+        bool fits32 = true;
+        for (std::size_t k = 0; k < N; ++k) if (ext[k] > 0xFFFFFFFFull) fits32 = false;
+        if (fits32) for (int variant = 0; variant < 2; ++variant) {
+            uint64_t idx = variant == 0 ? index_of<L_morton, N, unsigned>(ext, c) : index_of<L_mortonp, N, unsigned>(ext, c);
+            json cb_ = json::array();
+            for (auto x : c) cb_.push_back(bits64(x));
+            out << json({{"e", "mortonbits"}, {"n", N}, {"impl", variant == 0 ? "morton/uint32" : "morton_portable/uint32"}, {"c", cb_}, {"idx", bits64(idx)}}).dump() << "\n";
+            ++events;
+        }
     }
 }
 
